@@ -25,8 +25,9 @@ NCPU = os.cpu_count() or 4
 GUARD = "gufo_snmp_verif"
 
 ENV = dict(os.environ)
-ENV.update({"CARGO_NET_OFFLINE": "true", "PYTHONDONTWRITEBYTECODE": "1",
-            "RUSTFLAGS": (os.environ.get("RUSTFLAGS", "") + " --cfg " + GUARD).strip()})
+ENV.update({"CARGO_NET_OFFLINE": "true", "PYTHONDONTWRITEBYTECODE": "1"})
+# only the codec harness is built with the hooks on; the library itself (cdylib for the API driver) is built as shipped
+ENV_HOOKS = dict(ENV, RUSTFLAGS=(os.environ.get("RUSTFLAGS", "") + " --cfg " + GUARD).strip())
 
 FORBIDDEN = re.compile(
     r"\b(Admitted|admit|Axiom|Axioms|Parameter|Parameters|Conjecture|Conjectures|Abort All|"
@@ -351,16 +352,23 @@ def cargo_build_harness(profile):
     spec = importlib.util.spec_from_file_location("gen_harness", os.path.join(VERIF, "harness/rs/gen_harness.py"))
     gh = importlib.util.module_from_spec(spec)
     spec.loader.exec_module(gh)
-    hdir = os.path.join(CACHE, "harness-rs")
+    hdir = os.path.join(CACHE, "harness-rs-" + profile)
     with Lock("cargo-harness-" + profile):
-        gh.generate(REPO, hdir)
         tdir = os.path.join(CACHE, "target-harness-" + profile)
-        cmd = ["cargo", "build", "--offline", "--quiet", "--manifest-path", os.path.join(hdir, "Cargo.toml"),
-               "--target-dir", tdir]
+        exe = os.path.join(tdir, profile, "gsharness")
+        cmd = ["cargo", "build", "--offline", "--quiet", "--manifest-path", os.path.join(hdir, "Cargo.toml"), "--target-dir", tdir]
         if profile == "release":
             cmd.append("--release")
-        rc, out = sh(cmd, timeout=1500)
-        exe = os.path.join(tdir, profile, "gsharness")
+        # with the guarded hooks of /repo first; if that build fails (a rewrite left a hook behind) without them
+        gh.generate(REPO, hdir, hooks=True)
+        rc, out = sh(cmd, timeout=1500, env=ENV_HOOKS)
+        if rc != 0:
+            gh.generate(REPO, hdir, hooks=False)
+            rc2, out2 = sh(cmd, timeout=1500, env=ENV)
+            if rc2 == 0:
+                REGEN_NOTES.append("translator Constants: NOTE harness: the codec harness builds only without --cfg %s (the hooks of /repo "
+                                   "do not compile against the current sources); hook-based cases are skipped" % GUARD)
+                rc, out = rc2, out2
     return rc == 0 and os.path.exists(exe), out, exe
 
 
